@@ -29,11 +29,11 @@ PROP = dict(
     assumptions=["readers never return Pending or an I/O error"],
     stub_notes=["completed futures and error values are leaked instead of dropped (drop glue only; no behaviour)"],
     harnesses=[
-        H(NM, "c30", "c30_record_short_header", "0..=3 header bytes: always rejected", timeout=300),
-        H(NM, "c30", "c30_body_07_port", "Port body: every announced length / availability: accepted iff exactly one complete u16; round trip", timeout=400),
-        H(NM, "c30", "c30_body_02_error", "Error body, same", timeout=400),
-        H(NM, "c30", "c30_body_03_warning", "Warning body, same", timeout=400),
-        H(NM, "c30", "c30_body_05_new_cookie", "NewCookie body (4,4) accepted, fields = wire bytes, round trip / (4,3) rejected", timeout=400),
-        H(NM, "c30", "c30_full_15_unknown_critical", "NtsRecord::parse: unknown critical type 15, layout (3,3): type, critical bit and data preserved, serialises to its input", timeout=400),
+        H(NM, "c30", "c30_record_short_header", "0..=3 header bytes: always rejected", timeout=600),
+        H(NM, "c30", "c30_body_07_port", "Port body: every announced length / availability: accepted iff exactly one complete u16; round trip", timeout=600),
+        H(NM, "c30", "c30_body_02_error", "Error body, same", timeout=600),
+        H(NM, "c30", "c30_body_03_warning", "Warning body, same", timeout=600),
+        H(NM, "c30", "c30_body_05_new_cookie", "NewCookie body (4,4) accepted, fields = wire bytes, round trip / (4,3) rejected", timeout=600),
+        H(NM, "c30", "c30_full_15_unknown_critical", "NtsRecord::parse: unknown critical type 15, layout (3,3): type, critical bit and data preserved, serialises to its input", timeout=600),
     ] + [H(NM, "c30", n, w, tier="thorough") for n, w in _fixed] + [H(NM, "c30", n, w, tier="thorough") for n, w in _full],
 )
